@@ -9,6 +9,14 @@ CHECKS = {
    technique="TLA+ reference codec (E5Codec) enumerated by TLC + spec-as-oracle trace validation of recorded real encode/decode I/O",
    text="TLC enumerates a boundary-rich item space from spec/fn/E5Gen.tla (every format code x 0/1/2 elements x landmark values, nesting to depth 64, wide lists across slab/length boundaries, run-length leaves at 255/256/65535/65536/2^24-1) and model-checks the E5 transcription against itself; the Go harness realises every case through every public constructor shape on the real secs2 package plus seeded random trees, and TLC (OracleE5) judges every recorded (item, bytes, length, append, decode-back, Equal) line against the reference encoder/decoder.",
    note="Trusted: the E5 transcription in spec/fn/E5Codec.tla (self-checked Decode(Encode(i))=i over the enumerated space), TLC, the projection of real items through public accessors (harness/e5). Bounded enumeration + sampling, not a proof over all trees."),
+ "C02": dict(cat="model_checking", engine="e5-oracle", design="§4 C02",
+   technique="TLA+ reference decoder (E5Codec!Dec) as oracle over recorded real Decode/DecodeOwned outcomes; exhaustive short-string alphabet + grammar-directed mutations",
+   text="The real Decode and DecodeOwned are run on every byte string of length <=4 (quick) / <=5 (thorough) over a 14-symbol grammar alphabet (format bytes with 0..3 length bytes, small lengths), on truncations / single and double substitutions / length-field rewrites / non-canonical 2- and 3-length-byte re-encodings of valid items, on nesting chains 62..66 and 200, and on random strings; TLC judges each recorded line against the transcribed E5 grammar: accept/reject, decoded value, re-encoding equals the consumed prefix, both entry points agree, allocation <= 64*len+256KiB.",
+   note="Trusted: spec/fn/E5Codec.tla!Dec, TLC, runtime heap-allocation counters for the memory clause (a measurement, not a model fact). Exhaustive only over the stated alphabet and lengths."),
+ "C03": dict(cat="model_checking", engine="hsms-oracle", design="§4 C03",
+   technique="TLA+ E37 frame reference (HsmsFrame + E5Codec) as oracle over recorded real construct/serialize/decode/re-stamp observations",
+   text="The real hsms constructors (NewDataMessage, NewDataMessageFromHeader, Derive..Build, all nine control factories), ToBytes/HeaderBytes, DecodeHSMSMessage/DecodeHSMSPayload and WithSessionID/WithSystemBytes/WithID/Derive chains are driven over the landmark product stream{0,1,63,64,127,128,255} x function{0,1,2,127,128,254,255} x W x session id x system bytes x bodies, all control kinds x status/reason bytes, errored bodies and random messages; TLC (OracleHsms) checks each line against HsmsFrame: construction accepts exactly ValidData and error-free bodies, frame = len4 || header || E5 body, decode/re-serialize identity, re-stamps change only their bytes.",
+   note="Trusted: spec/fn/HsmsFrame.tla (E37 layout), E5Codec for bodies, TLC. The 'what a connection writes to the socket' clause is bound by the end-to-end recordings of C06/C07 (raw peer compares socket bytes with ToBytes)."),
 }
 
 NA = {
@@ -41,6 +49,8 @@ def main():
         engines=[
           dict(name="e5-oracle", path="spec/fn/E5Codec.tla spec/fn/E5Gen.tla spec/trace/OracleE5.tla harness/e5 harness/cmd/vh",
                serves_properties=["C01", "C02"], kind_free_text="TLA+ reference codec; TLC enumeration; ndjson spec-as-oracle pass"),
+          dict(name="hsms-oracle", path="spec/fn/HsmsFrame.tla spec/trace/OracleHsms.tla harness/cmd/vh/c03.go",
+               serves_properties=["C03", "C04"], kind_free_text="TLA+ E37 frame reference; ndjson spec-as-oracle pass"),
         ],
         checks=checks, not_applicable=na,
         notes="All checks rebuild the Go harness from /repo's working tree (-tags verif). Exit 2 = inconclusive (never a violation).")
